@@ -378,6 +378,16 @@ def validation_matrix(ctx):
                 ctx.case(("missing", field, r, form), nontrivial=True)
                 if d is not None:
                     ctx.violation("item-missing-required-key-accepted", "%s without %r (%s form) accepted" % (field, r, form), {"field": field, "form": form})
+        # an empty item, and required keys in another letter case / with blanks, are missing required keys
+        variants = [{}] + [{(k.upper() if k == r0 else k): v for k, v in good.items()} for r0 in reqs] + [{(k.capitalize() if k == r0 else k): v for k, v in good.items()} for r0 in reqs] \
+            + [{(" " + k if k == r0 else k): v for k, v in good.items()} for r0 in reqs]
+        for bad in variants:
+            for form, val in (("single", bad), ("list", [bad]), ("second", [_c.deepcopy(good), bad])):
+                d, e = accepts(**{field: val})
+                ctx.count("oracle.validation")
+                ctx.case(("missing-variant", field, repr(sorted(bad)), form), nontrivial=True)
+                if d is not None:
+                    ctx.violation("item-missing-required-key-accepted", "%s item %r (%s form) accepted" % (field, bad, form), {"field": field, "form": form})
         # missing required key although optional keys are present
         optional = {"script": [{"async": "", "defer": "", "type": "module", "integrity": "x", "crossorigin": "anonymous"}],
                     "stylesheet": [{"media": "print", "rel": "preload", "as": "style", "title": "t"}],
@@ -399,7 +409,7 @@ def validation_matrix(ctx):
         import collections as _co
         import types as _ty
 
-        for val in ("a.js", ["a.js"], [_c.deepcopy(good), "x"], [["src", "a"]], 7, [None],
+        for val in ("a.js", ["a.js"], [_c.deepcopy(good), "x"], [["src", "a"]], 7, [None], 0, False, 0.0, [[]], [0], [False], [""],   # (an EMPTY collection of items - "", (), set() - simply has no item to refuse)
                     # things that could be turned into a dict, but are not one
                     [list(good.items())], [tuple(good.items())], [_co.UserDict(good)], [_ty.MappingProxyType(dict(good))],
                     _co.UserDict(good), _ty.MappingProxyType(dict(good)), [_c.deepcopy(good), list(good.items())], [good.items()]):
